@@ -1,7 +1,8 @@
 #!/usr/bin/env python3
 """Run every registered check against every seeded change (scratch worktrees under /tmp, removed afterwards) and
 record which checks fire.  Writes /verif/seeded/MATRIX.md and updates detected_by in each meta.json.
-usage: tools/seed_matrix.py [--jobs 4] [seed ids...]"""
+With --benign the same is done for the behaviour-preserving refactors in /verif/benign (there an X is a FALSE ALARM).
+usage: tools/seed_matrix.py [--benign] [--jobs 4] [ids...]"""
 import json
 import os
 import re
@@ -19,8 +20,11 @@ def sh(cmd, cwd=None, env=None):
     return p.returncode, p.stdout + p.stderr
 
 
+KIND = "seeded"
+
+
 def run_seed(sid):
-    src = os.path.join(VERIF, "seeded", sid)
+    src = os.path.join(VERIF, KIND, sid)
     man = json.load(open(os.path.join(VERIF, "MANIFEST.json")))
     checks = [c["property_id"] for c in man["checks"]]
     tree = tempfile.mkdtemp(prefix="mx.", dir="/tmp")
@@ -35,7 +39,10 @@ def run_seed(sid):
         for c in checks:
             rc, txt = sh([os.path.join(VERIF, "check"), c, "--repo", tree], cwd=VERIF, env=env)
             rules = sorted(set(re.findall(r"rule=(\S+)", txt)))
+            err = re.findall(r"^ANALYSIS-ERROR.*$", txt, re.M)
             res[c] = {"exit": rc, "rules": rules[:8]}
+            if err:
+                res[c]["error"] = err[0][:300]
     finally:
         sh(["git", "-C", "/repo", "worktree", "remove", "--force", tree])
         shutil.rmtree(tree, ignore_errors=True)
@@ -43,13 +50,18 @@ def run_seed(sid):
 
 
 def main():
+    global KIND
     jobs = 4
     args = sys.argv[1:]
+    if "--benign" in args:
+        args.remove("--benign")
+        KIND = "benign"
     if "--jobs" in args:
         i = args.index("--jobs")
         jobs = int(args[i + 1])
         del args[i:i + 2]
-    seeds = args or sorted(d for d in os.listdir(os.path.join(VERIF, "seeded")) if os.path.isdir(os.path.join(VERIF, "seeded", d)))
+    seeds = args or sorted(d for d in os.listdir(os.path.join(VERIF, KIND)) if os.path.isdir(os.path.join(VERIF, KIND, d)))
+    partial = bool(args)
     # evidence files are rewritten by every check run: restore them afterwards from git
     results = {}
     with ThreadPoolExecutor(max_workers=jobs) as ex:
@@ -58,17 +70,33 @@ def main():
             det = [c for c, v in res.items() if v["exit"] == 1]
             err = [c for c, v in res.items() if v["exit"] not in (0, 1)]
             print(sid, "detected by", det, "analysis-error in", err, flush=True)
-            mp = os.path.join(VERIF, "seeded", sid, "meta.json")
+            mp = os.path.join(VERIF, KIND, sid, "meta.json")
             meta = json.load(open(mp))
             meta["checks_run"] = res
-            meta["detected_by"] = det
-            meta["analysis_error_in"] = err
+            if KIND == "seeded":
+                meta["detected_by"] = det
+                meta["analysis_error_in"] = err
+            else:
+                meta["false_alarm_in"] = det
+                meta["declined_by"] = err
             json.dump(meta, open(mp, "w"), indent=1)
     man = json.load(open(os.path.join(VERIF, "MANIFEST.json")))
     checks = [c["property_id"] for c in man["checks"]]
-    lines = ["# Seeded changes x checks", "",
-             "`X` = the check exits 1 with a VIOLATION line, `E` = ANALYSIS-ERROR (exit 2: the analysis declines, never a pass), `.` = silent.",
-             "Every seed was confirmed first (compiles, pinned suite 140 passed, its demo fails only with the change).", "",
+    if partial:
+        # merge with the rows of the last full run
+        for d in sorted(os.listdir(os.path.join(VERIF, KIND))):
+            mp = os.path.join(VERIF, KIND, d, "meta.json")
+            if d not in results and os.path.isfile(mp):
+                results[d] = json.load(open(mp)).get("checks_run", {})
+    if KIND == "seeded":
+        head = ["# Seeded changes x checks", "",
+                "`X` = the check exits 1 with a VIOLATION line, `E` = ANALYSIS-ERROR (exit 2: the analysis declines, never a pass), `.` = silent.",
+                "Every seed was confirmed first (compiles, pinned suite 140 passed, its demo fails only with the change).", ""]
+    else:
+        head = ["# Behaviour-preserving refactors x checks", "",
+                "`X` = the check exits 1: a FALSE ALARM, `E` = ANALYSIS-ERROR (exit 2: the analysis declines the refactored code), `.` = silent (the wanted outcome).",
+                "Every refactor was confirmed first (compiles, pinned suite 140 passed, its equivalence digest is identical on both trees).", ""]
+    lines = head + [
              "| seed | breaks | " + " | ".join(c[1:] for c in checks) + " |", "|---|---|" + "---|" * len(checks)]
     for sid in sorted(results):
         row = []
@@ -76,7 +104,7 @@ def main():
             e = results[sid].get(c, {}).get("exit")
             row.append("X" if e == 1 else "E" if e not in (0, 1, None) else ".")
         lines.append("| %s | %s | %s |" % (sid, sid.split("-")[0], " | ".join(row)))
-    open(os.path.join(VERIF, "seeded", "MATRIX.md"), "w").write("\n".join(lines) + "\n")
+    open(os.path.join(VERIF, KIND, "MATRIX.md"), "w").write("\n".join(lines) + "\n")
     sh(["git", "-C", VERIF, "checkout", "--", "evidence"])
 
 
